@@ -236,9 +236,10 @@ def pick_level(rng, G0, g0_exact, mode):
     (near) |g(t0)| tiny."""
     lo, hi = float(G0.min()), float(G0.max())
     rngG = max(hi - lo, 1e-9)
-    if mode == "cross":
-        k = int(rng.integers(max(1, len(G0) // 20), len(G0)))
-        return float(G0[k])
+    if mode == "cross":                      # value of G0 at a random (non-grid) time: linear interpolation of the sample
+        u = float(rng.uniform(0.05, 1.0)) * (len(G0) - 1)
+        k = min(int(u), len(G0) - 2)
+        return float(G0[k] + (u - k) * (G0[k + 1] - G0[k]))
     if mode == "none":
         return float(hi + rngG * rng.uniform(0.05, 0.5)) if rng.random() < 0.5 else float(lo - rngG * rng.uniform(0.05, 0.5))
     if mode == "surface":
@@ -560,6 +561,22 @@ def judge(ctx, lib, c, it):
             ctx.skip("rejected: zero within the error bound of the span end")
             return
         adm = [(k, s) for k, s in sc.roots if direction == 0 or s == direction]
+        if kind != "adaptive" and direction != 0:
+            # a filtered-direction zero sitting on a step node may be seen as g == 0.0 exactly: outcome not fixed
+            nodes = np.asarray(c["tv"], dtype=float)
+            for k, s in sc.roots:
+                if s == direction or (adm and k > adm[0][0]):
+                    continue
+                sl_k = abs(sc.g[k + 1] - sc.g[k]) / sc.dt
+                tr = sc.root_time(k)
+                j = int(np.clip(np.searchsorted(nodes, tr), 1, len(nodes) - 1))
+                dist = min(abs(tr - nodes[j - 1]), abs(tr - nodes[j]))
+                if dist <= 10 * (gdd * sc.dt ** 2 / sl_k + err_g / sl_k) + 1e-9:
+                    tr = sc.refine(k)
+                    dist = min(abs(tr - nodes[j - 1]), abs(tr - nodes[j]))
+                    if dist <= 10 * err_g / sl_k + 1e-12:
+                        ctx.skip("rejected: filtered-direction zero on a step node (outcome not fixed by the statement)")
+                        return
         n_filtered = 0
         if adm:
             n_filtered = sum(1 for k, s in sc.roots if k < adm[0][0])
@@ -745,14 +762,17 @@ def wrapper_cases(ctx, n):
             continue
         s_hit = abs(float(hit.time))
         t_star, slope = inwin[0]
-        t_tol = 10 * (E + gtol) / abs(slope) + 10 * xtol + 1e-11
-        ctx.stat("t_err/tol[wrapper]", abs(s_hit - t_star) / t_tol)
+        # dense-output allowance of the 1e-12 DOP853 legs + accuracy floor of the SciPy 1e-13 reference
+        A = 5.0 * (1e-12 * (1.0 + float(np.linalg.norm(hit.state))) + 1e-12)
+        x_tol = 10 * E + 10 * A + 1e-10
+        t_tol = (10 * (E + A + gtol) + 1e-10) / abs(slope) + 10 * xtol
+        ctx.stat(f"t_err/tol[{tag}]", abs(s_hit - t_star) / t_tol)
         ok = ctx.check(abs(s_hit - t_star) <= t_tol, f"{tag}: hit time equals the first admissible crossing time",
                        lambda: {**wit(), "t_err": abs(s_hit - t_star), "tol": t_tol}, mech)
         ex = float(np.linalg.norm(np.asarray(hit.state) - dense(min(s_hit, tmax))))
-        ctx.stat("state_err/tol[wrapper]", ex / (10 * E))
-        ctx.check(ex <= 10 * E, f"{tag}: reported state on the reference trajectory at the reported time",
-                  lambda: {**wit(), "state_err": ex, "tol": 10 * E}, mech)
+        ctx.stat(f"state_err/tol[{tag}]", ex / x_tol)
+        ctx.check(ex <= x_tol, f"{tag}: reported state on the reference trajectory at the reported time",
+                  lambda: {**wit(), "state_err": ex, "tol": x_tol}, mech)
         gh = float(hit.state[idx] - off)
         ctx.check(abs(gh) <= 10 * (gtol + abs(slope) * xtol) + 1e-14, f"{tag}: plane function at the hit is zero within tolerances",
                   lambda: {**wit(), "g_hit": gh})
